@@ -66,7 +66,7 @@ def parse_errors(stderr):
     return out
 
 
-def run_unit(unit, tier='quick'):
+def run_unit(unit, tier='quick', _extra_fns=None):
     ensure_dirs()
     mod = importlib.import_module(unit)
     importlib.reload(mod)
@@ -74,6 +74,13 @@ def run_unit(unit, tier='quick'):
     U = mod.build(manifest)            # may raise Undecided (lost anchor / unsupported construct)
     asm = U['asm']
     pid = U['pid']
+    # helper functions of the same source files that the extracted code calls but the unit does not list (a refactor
+    # that introduces a local helper): extracted verbatim, without a contract, and verified like everything else
+    for name, text in (_extra_fns or {}).items():
+        last = asm.parts.pop()
+        asm.nlines -= last.count('\n')
+        asm.add(text, 'auto:' + name, 'fn')
+        asm.add(last)
     path = os.path.join(BUILD, unit + '.rs')
     text = asm.text()
     open(path, 'w').write(text)
@@ -94,6 +101,23 @@ def run_unit(unit, tier='quick'):
     errs = parse_errors(p.stderr)
     if re.search(r"Internal Verus Error|thread 'rustc' .*panicked|error: internal compiler error", p.stderr):
         raise Undecided('verus crashed on unit %s: %s' % (unit, (re.search(r'Internal Verus Error[^\n]*', p.stderr) or re.search(r'panicked[^\n]*', p.stderr)).group(0)[:300]))
+    missing = sorted(set(re.findall(r"error\[E0425\]: cannot find function `(\w+)` in this scope", p.stderr)))
+    if missing and len(_extra_fns or {}) < 4:
+        found = dict(_extra_fns or {})
+        for name in missing:
+            if name in found:
+                continue
+            for it in manifest.items:
+                try:
+                    src = extract.Src(it['file'][len('lib/src/'):], extract.Manifest())
+                    t = src.free_fn(name)
+                except Undecided:
+                    continue
+                t = extract.norm_vis(extract.clean_fn(t))
+                found[name] = re.sub(r'^fn ', 'pub fn ', t, count=1)
+                break
+        if len(found) > len(_extra_fns or {}):
+            return run_unit(unit, tier, _extra_fns=found)
     if 'verified' not in vr:
         # rustc-level failure of the assembled file: renamed locals, lost splice anchors, dialect limits
         first = errs[0]['text'].split('\n')[0:6] if errs else [p.stderr[-400:]]
